@@ -125,6 +125,24 @@ Theorem grant_revoke_keep_admin : forall us n d p,
   admin_exists (grant us n d p) = admin_exists us /\ admin_exists (revoke us n d p) = admin_exists us.
 Proof. intros; split; apply set_privilege_admin_exists. Qed.
 
+(* serve level: GRANT / REVOKE on (n, d) changes the answer of no request made by somebody else, and of no request of
+   n whose handling does not consult the privilege on d *)
+Theorem serve_grant_revoke_exact : forall sh cfg us r k rq n d p,
+  (forall u, authenticate cfg us (rq_creds rq) = Pass (Some u) -> u_name u <> n) \/ mentionsb k rq d = false ->
+  serve sh cfg (grant us n d p) r k rq = serve sh cfg us r k rq /\
+  serve sh cfg (revoke us n d p) r k rq = serve sh cfg us r k rq.
+Proof. exact serve_grant_revoke_exact_lemma. Qed.
+Print Assumptions serve_grant_revoke_exact.
+
+(* ... and for n on d it becomes exactly what the granted privilege says *)
+Theorem serve_after_grant_is_the_grant : forall sh cfg us r n d p u c want,
+  auth_enabled cfg = true -> admin_exists us = true -> authenticated sh r = true -> always_rejects r = false ->
+  authenticate cfg us c = Pass (Some u) -> u_name u = n -> u_admin u = false -> want <> NoPriv ->
+  fst (serve sh cfg (grant us n d p) r (KQuery [[RDb "" want]]) (mk_request c d)) =
+    if priv_eqb p want || priv_eqb p AllPriv then 200 else 403.
+Proof. exact serve_after_grant. Qed.
+Print Assumptions serve_after_grant_is_the_grant.
+
 (* (T) the RequiredPrivileges methods of the source (every statement type: Admin flag, database expression, privilege,
    conditions, delegations) are exactly the table the model and the statement matrix use *)
 Theorem required_privileges_match : list_eqb stmt_priv_eqb gen_privs model_privs = true.
